@@ -3,9 +3,11 @@
                answer: 0 full | 1 n accept | 2 k fail | 3 interrupted
                res: 0 | 1 kind code source_tag source_kind     (the error returned by render_captured_to)
                acc: bytes taken by the call, -1 for an error answer
-   c19-chunks: an encoded request (Lang/Codec.v) -> 0 nchunks [len c..].. | 1 code | 8 | 9 *)
+   c19-chunks: an encoded request (Lang/Codec.v) -> 0 nchunks [len c..].. | 1 code | 8 | 9
+   c19-partial: same input, output-keeping interpreter -> 0 nchunks [len c..].. | 1 code nchunks [len c..].. | 8 | 9
+                (for an error: the top-level chunks written before it) *)
 From Coq Require Import String.
-From MJ Require Import Common.Base Lang.Syntax Lang.Interp Lang.Codec C19.Model C19.Spec.
+From MJ Require Import Common.Base Lang.Syntax Lang.Interp Lang.Codec C19.Model C19.Partial C19.Spec.
 
 Fixpoint dscript (n : nat) (l : list Z) : option (list answer * list Z) :=
   match n with
@@ -75,5 +77,19 @@ Definition run_chunks (inp : list Z) : list Z :=
       end
   end.
 
+Definition enc_chunks (w : list (list Z)) : list Z := lenZ w :: flat_map (fun ch => lenZ ch :: ch) w.
+
+Definition run_partial_chunks (inp : list Z) : list Z :=
+  match drequest inp with
+  | None => [9]
+  | Some (md, esc, ctx, body) =>
+      match run_partial (mkCfg md ctx esc) FUEL body with
+      | POk s => 0 :: enc_chunks (writes_of no_split s)
+      | PErr c out => 1 :: c :: enc_chunks (rev out)
+      | PPanic => [2]
+      | PGas => [8]
+      end
+  end.
+
 Open Scope string_scope.
-Definition runners : list (string * (list Z -> list Z)) := [ ("c19-drive", run_drive); ("c19-chunks", run_chunks) ].
+Definition runners : list (string * (list Z -> list Z)) := [ ("c19-drive", run_drive); ("c19-chunks", run_chunks); ("c19-partial", run_partial_chunks) ].
